@@ -146,3 +146,95 @@ def kw(call: ast.Call, name: str):
 
 def star_kwargs(call: ast.Call):
     return [k.value for k in call.keywords if k.arg is None]
+
+
+def single_defs(fn_node: ast.AST) -> dict[str, ast.AST]:
+    """Locals of a function that have exactly one definition, a plain `name = expr` (the temporaries the helper
+    expansion introduces, and ordinary single-assignment locals): name -> expr."""
+    cache = getattr(fn_node, "_sa_single_defs", None)
+    if cache is not None:
+        return cache
+    counts: dict[str, int] = {}
+    vals: dict[str, ast.AST] = {}
+    for x in walk_own(fn_node):
+        if isinstance(x, ast.Name) and isinstance(x.ctx, ast.Store | ast.Del):
+            counts[x.id] = counts.get(x.id, 0) + 1
+        elif isinstance(x, ast.arg):
+            counts[x.arg] = counts.get(x.arg, 0) + 2
+        elif isinstance(x, ast.ExceptHandler) and x.name:
+            counts[x.name] = counts.get(x.name, 0) + 2
+        if isinstance(x, ast.Assign) and len(x.targets) == 1 and isinstance(x.targets[0], ast.Name):
+            vals[x.targets[0].id] = x.value
+    a = getattr(fn_node, "args", None)
+    if a is not None:
+        for p in [*a.posonlyargs, *a.args, *a.kwonlyargs, *([a.vararg] if a.vararg else []), *([a.kwarg] if a.kwarg else [])]:
+            counts[p.arg] = counts.get(p.arg, 0) + 2
+    out = {n: v for n, v in vals.items() if counts.get(n) == 1}
+    try:
+        fn_node._sa_single_defs = out  # type: ignore[attr-defined]
+    except AttributeError:
+        pass
+    return out
+
+
+def subst_locals(expr: ast.AST, fn_node: ast.AST, depth: int = 5, keep: set[str] | frozenset = frozenset()) -> ast.AST:
+    """`expr` with single-definition locals replaced by their defining expressions (to a bounded depth)."""
+    defs = single_defs(fn_node)
+    if not defs:
+        return expr
+
+    def clone(n, d):
+        if isinstance(n, ast.Name) and isinstance(n.ctx, ast.Load) and n.id in defs and n.id not in keep and d > 0:
+            return clone(defs[n.id], d - 1)
+        if isinstance(n, list):
+            return [clone(x, d) for x in n]
+        if not isinstance(n, ast.AST):
+            return n
+        new = type(n)()
+        for f, v in ast.iter_fields(n):
+            setattr(new, f, clone(v, d))
+        for a in ("lineno", "col_offset", "end_lineno", "end_col_offset"):
+            if hasattr(n, a):
+                setattr(new, a, getattr(n, a))
+        return new
+
+    return clone(expr, depth)
+
+
+def fold_in(ctx, fi: FuncInfo, expr: ast.AST):
+    """const_str after substituting single-definition locals of `fi`."""
+    ok, v = const_str(ctx, fi.module, expr)
+    if ok:
+        return ok, v
+    return const_str(ctx, fi.module, subst_locals(expr, fi.node))
+
+
+def message_skeleton(ctx, module, expr: ast.AST) -> str:
+    """The literal skeleton of a message-building expression: constant pieces verbatim, computed pieces as `{}` —
+    independent of how the message is assembled (f-string, +, %, a temporary) and of variable names."""
+    def sk(n) -> str:
+        if isinstance(n, ast.Constant):
+            return str(n.value) if isinstance(n.value, str) else "{}"
+        if isinstance(n, ast.JoinedStr):
+            return "".join(sk(v) for v in n.values)
+        if isinstance(n, ast.FormattedValue):
+            ok, v = const_str(ctx, module, n.value)
+            return str(v) if ok and isinstance(v, str | int) else "{}"
+        if isinstance(n, ast.BinOp) and isinstance(n.op, ast.Add):
+            return sk(n.left) + sk(n.right)
+        if isinstance(n, ast.BinOp) and isinstance(n.op, ast.Mod):
+            left = sk(n.left)
+            return left.replace("%s", "{}").replace("%d", "{}").replace("%r", "{}")
+        if isinstance(n, ast.Call) and isinstance(n.func, ast.Attribute) and n.func.attr == "format":
+            import re as _r
+            return _r.sub(r"\{[^{}]*\}", "{}", sk(n.func.value))
+        if isinstance(n, ast.Call) and isinstance(n.func, ast.Attribute) and n.func.attr == "join" and n.args:
+            return "{}"
+        ok, v = const_str(ctx, module, n)
+        if ok and isinstance(v, str):
+            return v
+        return "{}"
+    s = sk(expr)
+    while "{}{}" in s:
+        s = s.replace("{}{}", "{}")
+    return " ".join(s.split())
